@@ -18,7 +18,7 @@ func rhs() []float64 {
 	for v := 5.0; v <= 95; v += 5 {
 		out = append(out, v)
 	}
-	return append(out, 99, 99.9, 100)
+	return append(out, 99, 99.9, 99.95, 99.97, 99.99, 99.999, 100)
 }
 
 func temps(step float64) []float64 {
@@ -86,10 +86,76 @@ func (e *enum) column(elev, rh float64) mrun.Result {
 	return mrun.RunCell("ClimateVariables", []float64{elev}, [][]float64{e.T, h}, len(e.T), nil)
 }
 
+// every lattice point must give the same answer wherever it sits in a series: the column is also run in
+// descending temperature order and every point as a one-step run of its own (position independence),
+// and each temperature as a row over all humidities in both orders.
+func (e *enum) positionIndependent(elev, rh float64, res mrun.Result, r *vf.Rec) bool {
+	n := len(e.T)
+	rev := make([]float64, n)
+	h := make([]float64, n)
+	for i := range rev {
+		rev[i] = e.T[n-1-i]
+		h[i] = rh
+	}
+	down := mrun.RunCell("ClimateVariables", []float64{elev}, [][]float64{rev, h}, n, nil)
+	for k := 0; k < n; k++ {
+		single := mrun.RunCell("ClimateVariables", []float64{elev}, [][]float64{{e.T[k]}, {rh}}, 1, nil)
+		for o := 0; o < 4; o++ {
+			a, b, c := res.Out[o][k], down.Out[o][n-1-k], single.Out[o][0]
+			if !mrun.SameBits(a, b) || !mrun.SameBits(a, c) {
+				r.Failf("C20/output-depends-on-position-in-series/temperature-series", map[string]interface{}{"dryBulb": e.T[k], "humidity": rh, "elevation": elev, "output": o, "ascending_series": a, "descending_series": b, "single_step": c},
+					"T=%g RH=%g elev=%g: output %d is %v in an ascending series, %v in a descending one, %v alone", e.T[k], rh, elev, o, a, b, c)
+				return false
+			}
+		}
+	}
+	return true
+}
+
+func (e *enum) rowsIndependent(elev float64, ti int, r *vf.Rec) bool {
+	t := e.T[ti]
+	n := len(e.RH)
+	ts := make([]float64, n)
+	up := make([]float64, n)
+	dn := make([]float64, n)
+	for i := range ts {
+		ts[i] = t
+		up[i] = e.RH[i]
+		dn[i] = e.RH[n-1-i]
+	}
+	a := mrun.RunCell("ClimateVariables", []float64{elev}, [][]float64{ts, up}, n, nil)
+	b := mrun.RunCell("ClimateVariables", []float64{elev}, [][]float64{ts, dn}, n, nil)
+	for k := 0; k < n; k++ {
+		for o := 0; o < 4; o++ {
+			if !mrun.SameBits(a.Out[o][k], b.Out[o][n-1-k]) {
+				r.Failf("C20/output-depends-on-position-in-series/humidity-series", map[string]interface{}{"dryBulb": t, "humidity": e.RH[k], "elevation": elev, "output": o, "ascending_series": a.Out[o][k], "descending_series": b.Out[o][n-1-k]},
+					"T=%g RH=%g elev=%g: output %d differs between an ascending and a descending humidity series", t, e.RH[k], elev, o)
+				return false
+			}
+		}
+		dew, wet := a.Out[1][k], a.Out[2][k]
+		if dew > wet || wet > t || (k > 0 && dew < a.Out[1][k-1]) {
+			r.Failf("C20/ordering-violated-in-humidity-series", map[string]interface{}{"dryBulb": t, "humidity": e.RH[k], "elevation": elev, "dewPoint": dew, "wetBulb": wet},
+				"T=%g RH=%g elev=%g in a humidity series: dew %g wet %g", t, e.RH[k], elev, dew, wet)
+			return false
+		}
+	}
+	return true
+}
+
 func (e *enum) Run(i int64, r *vf.Rec) {
 	ei, hi := int(i)/len(e.RH), int(i)%len(e.RH)
 	elev, rh := elevs[ei], e.RH[hi]
 	res := e.column(elev, rh)
+	if !e.positionIndependent(elev, rh, res, r) {
+		return
+	}
+	// the humidity-major rows of this elevation are shared out over the columns
+	for ti := hi; ti < len(e.T); ti += len(e.RH) {
+		if !e.rowsIndependent(elev, ti, r) {
+			return
+		}
+	}
 	var next *mrun.Result
 	if hi+1 < len(e.RH) {
 		n := e.column(elev, e.RH[hi+1])
@@ -139,8 +205,8 @@ func (e *enum) Run(i int64, r *vf.Rec) {
 func Spec() *vf.Check {
 	return &vf.Check{
 		ID: "C20", Level: "exploration", BlockSize: 4,
-		Rule: "lattice: dry bulb -40..55 C step 0.25 (quick) / 0.05 (thorough) plus 0, +-0.001, +-0.01; RH {0.01,0.1,1,5,10,...,95,99,99.9,100} %; elevation {0,500,1500,3000,6000,10000} m; one case = one (elevation, RH) column of all temperatures through the real ClimateVariables model, compared with the next RH column; " +
-			"finite outputs, vapour pressure > 0 and strictly increasing between neighbouring lattice temperatures, dew <= wet <= dry, deltaT == dry - wet exactly, dew point non-decreasing in RH. distinct_nontrivial = columns (all distinct).",
+		Rule: "lattice: dry bulb -40..55 C step 0.25 (quick) / 0.05 (thorough) plus 0, +-0.001, +-0.01; RH {0.01,0.1,1,5,10,...,95,99,99.9,99.95,99.97,99.99,99.999,100} %; elevation {0,500,1500,3000,6000,10000} m; one case = one (elevation, RH) column of all temperatures through the real ClimateVariables model, compared with the next RH column; " +
+			"finite outputs, vapour pressure > 0 and strictly increasing between neighbouring lattice temperatures, dew <= wet <= dry, deltaT == dry - wet exactly, dew point non-decreasing in RH; every point also evaluated in a descending temperature series, alone as a one-step run, and in ascending/descending humidity series at fixed temperature, all bit-identical (the model is stateless per timestep). distinct_nontrivial = columns (all distinct).",
 		Assumptions: []string{"nothing is claimed between lattice points"},
 		Build: func(tier string) vf.Enumeration {
 			step := 0.25
